@@ -736,6 +736,45 @@ fn fam_boxed(ctx: &Ctx) {
                             x ^= &xb;
                             Out::v(&bw(&x))
                         });
+                        // mixed precision: a ONE-limb right-hand side is zero-extended (values compared, the wider
+                        // operand's high limbs must be cleared by AND and kept by OR / XOR)
+                        if a.len() >= 2 {
+                            let nb = bx(&b[..1]);
+                            let val = |l: &Limbs| Out::v(&from_big(&to_big(l), a.len()));
+                            let mut and1 = vec![0u64; a.len()];
+                            and1[0] = a[0] & b[0];
+                            let mut or1 = a.clone();
+                            or1[0] |= b[0];
+                            let mut xor1 = a.clone();
+                            xor1[0] ^= b[0];
+                            let norm = |x: &BoxedUint| Out::v(&from_big(&to_big(&bw(x)), a.len()));
+                            cs.group();
+                            chk!(cs, "&Boxed&&Boxed (narrow rhs)", &val(&and1), norm(&(&xa & &nb)));
+                            chk!(cs, "Boxed&=&Boxed (narrow rhs)", &val(&and1), {
+                                let mut x = xa.clone();
+                                x &= &nb;
+                                norm(&x)
+                            });
+                            chk!(cs, "Boxed&=Boxed (narrow rhs, by value)", &val(&and1), {
+                                let mut x = xa.clone();
+                                x &= nb.clone();
+                                norm(&x)
+                            });
+                            cs.group();
+                            chk!(cs, "&Boxed|&Boxed (narrow rhs)", &val(&or1), norm(&(&xa | &nb)));
+                            chk!(cs, "Boxed|=&Boxed (narrow rhs)", &val(&or1), {
+                                let mut x = xa.clone();
+                                x |= &nb;
+                                norm(&x)
+                            });
+                            cs.group();
+                            chk!(cs, "&Boxed^&Boxed (narrow rhs)", &val(&xor1), norm(&(&xa ^ &nb)));
+                            chk!(cs, "Boxed^=&Boxed (narrow rhs)", &val(&xor1), {
+                                let mut x = xa.clone();
+                                x ^= &nb;
+                                norm(&x)
+                            });
+                        }
                     }
                 }
             });
